@@ -43,6 +43,8 @@ pub fn render_ty(ty: &TyExpr, m: &Module) -> String {
                 format!("[{}; N]", render_ty(&args[0], m))
             } else if *n == "&" {
                 format!("&{}", render_ty(&args[0], m))
+            } else if *n == "heapless::Vec" {
+                format!("heapless::Vec<{}, 4>", render_ty(&args[0], m))
             } else if *n == "std::borrow::Cow" {
                 format!("std::borrow::Cow<'static, {}>", render_ty(&args[0], m))
             } else {
